@@ -208,6 +208,29 @@ def d5_ets(facts, rep):
             ok = ok and not any(q in set(c[0] for c in cr) for q in reached)
         rep.ob('D5', 'K4', fn, 'a new element is created only when no table level holds the thread\'s key', ok and bool(hit),
                'a thread that already has an element gets a second one', key_extra=fn.q[-30:])
+        # the size of a new array is computed from the thread's own ticket (the value it obtained from ++my_count): several
+        # first-time callers can read the same root inside the ++my_count .. CAS window; an array sized from the root they saw
+        # ("double it") is then too small for all of them and a probe loop never finds an empty slot.  K10: the argument of
+        # allocate() is a variable that is compared with the ticket on a branch that dominates the allocation.
+        from engine.rules import vars_initialised_from
+        tick_nodes = [o['s'] for _, o in ops_on(fn, 'my_count', ('rmw',))]
+        tick_vars = vars_initialised_from(fn, tick_nodes)
+        for pos2, sx2, node2, d2 in calls_named(fn, ('allocate',)):
+            a2 = node2.get('a', [])
+            sv = fn.n(fn.strip(a2[0])).get('v') if a2 else None
+            okk = False
+            if sv is not None and tick_vars:
+                for b2, blk2 in fn.blocks.items():
+                    t2 = blk2.get('term')
+                    if not t2 or 'c' not in t2:
+                        continue
+                    vs = set(fn.nodes[x].get('v') for x in fn.subtree(t2['c']) if fn.nodes[x].get('k') == 'var')
+                    if sv in vs and (vs & tick_vars) and any(dominated_by_edges(fn, pos2, {(b2, k)})[0] for k in (0, 1)):
+                        okk = True
+            rep.ob('D5', 'K10', fn, 'a new hash array is sized from the caller\'s own ticket (++my_count), not from the array it replaces', okk,
+                   'the size passed to allocate() is never compared with the ticket: concurrent first accesses that saw the same root all '
+                   'allocate the same too small array; one of them probes a full array forever (a thread never gets its element)',
+                   ln=node2['ln'], key_extra='size' + fn.q[-30:])
         cnt = ops_on(fn, 'my_count', ('store', 'rmw', 'cas'))
         rep.ob('D5', 'K1', fn, 'the element count is raised atomically', bool(cnt) and all(o['kind'] == 'rmw' for _, o in cnt), ', '.join(o['name'] for _, o in cnt),
                key_extra=fn.q[-30:])
